@@ -1,3 +1,4 @@
+import TT.Driver.C02
 import TT.Driver.C03
 import TT.Driver.C04
 import TT.Driver.C05
@@ -14,6 +15,7 @@ open TT.Driver
 
 def answer (line : String) : String :=
   match line.trimAscii.toString.splitOn " " with
+  | "c02" :: rest => c02 rest
   | "c03" :: rest => c03 rest
   | "c04" :: rest => c04 rest
   | "c05" :: rest => c05 rest
